@@ -92,6 +92,17 @@ theorem order_sensitive_map_helpers_off_consensus_path :
     Sekai.Gen.Ambient.mapRangeCallers.filter (fun r => r.1 == "WrapInfos" || r.1 == "AllExecutionFees") = [] := by
   decide +kernel
 
+/-- **no application state outside the key-value store.** `processState` lists (1) every field of a keeper, decorator,
+handler or msg-server struct whose type can hold mutable data (map, slice, pointer, channel, `sync` / `atomic` types) and
+(2) every package-level variable that some function writes. The only entry is the upgrade keeper's handler table, filled
+once at start-up (`SetUpgradeHandler` in app.go) and read-only afterwards. State kept in process memory is not part of
+the application hash, survives the roll-back of a failed transaction or of a discarded branch (`CacheContext`, the
+dry-run of `MsgSubmitProposal`, simulation, CheckTx) and is lost by a restart: two replicas executing the same blocks
+can then answer differently (`Replica.run_env_irrelevant` covers exactly the machines whose step reads nothing but the
+store and the block). -/
+theorem no_state_outside_the_store : Sekai.Gen.Ambient.processState =
+    [("x/upgrade/keeper/keeper.go", "Keeper", "upgradeHandlers", "map[string]types.UpgradeHandler")] := by decide +kernel
+
 /-- protobuf messages with map fields. Genesis / query messages are not stored by block processing; the five
 custody messages ARE stored by the custody keeper and gogoproto writes their entries in Go map order: two replicas
 can store different bytes for the same record (recorded finding `C01/custody/map-marshal-order`). -/
